@@ -233,4 +233,65 @@ func runC18(p *eng.Prog, r *eng.Report, tier string) {
 	}
 	// C18.6 a refused or cancelled join does not block the next one
 	handoffWithdrawn(c, "C18.6", "muc", "(*Channel).JoinPresence", "muc.Channel.join")
+	// C18.7 membership ends only where the room's unavailable presence is
+	// processed: nobody else deletes from Client.managed
+	for _, f := range c.allFns() {
+		if f.Short == "muc.(*Client).HandlePresence" {
+			continue
+		}
+		for _, mu := range f.MapUpdates() {
+			if k, _ := f.FieldClass(mu.Map); k == "muc.Client.managed" && mu.Delete {
+				c.r.Check("C18.7", f, "delete from Client.managed", "W: a room is forgotten only when its unavailable presence is processed (HandlePresence)", mu.Node.Pos(), false, "membership removed in "+f.Short+": later presences of the room are ignored although the occupant may still be in it")
+			}
+		}
+	}
+	// every join (the first one through Client.Join and any later one through
+	// Channel.Join) registers the channel under the requested occupant address
+	// before the request can be answered: HandlePresence forgets the room when
+	// it is left, and an unregistered channel never sees its self-presence
+	if jp := c.fn("C18.8", "muc", "(*Channel).JoinPresence"); jp != nil {
+		g := jp.Graph()
+		isReg := func(q eng.Point, nd ast.Node) bool {
+			for _, mu := range jp.MapUpdates() {
+				if mu.Node == nd && !mu.Delete {
+					if k, _ := jp.FieldClass(mu.Map); k == "muc.Client.managed" {
+						return true
+					}
+				}
+			}
+			return false
+		}
+		n := 0
+		for _, op := range chanOps(jp) {
+			if op.kind == "send" && op.class == "muc.Channel.join" {
+				n++
+				pt, _ := g.Where(op.node)
+				c.r.Check("C18.8", jp, "channel registered before the join is queued", "O: every path of Channel.JoinPresence to the hand-off passes a store into Client.managed", op.node.Pos(), g.MustPassBefore(g.Entry(), pt, isReg, nil), "a join through Channel.Join (re-join after leaving or being removed) is never registered: the room's self-presence is ignored and Join can only end with its context's error")
+			}
+		}
+		c.r.Floor("C18.8", "join hand-offs in Channel.JoinPresence", n, 1)
+	}
+	// the join presence is addressed to the occupant address the channel is
+	// registered under (Client.managed is keyed by it): the address is not
+	// changed before it is copied into the presence
+	if jp := c.fn("C18.7", "muc", "(*Channel).JoinPresence"); jp != nil {
+		g := jp.Graph()
+		n := 0
+		for _, w := range jp.Writes() {
+			if sel, ok := ast.Unparen(w.LHS).(*ast.SelectorExpr); !ok || sel.Sel.Name != "To" || w.RHS == nil || jp.Norm(w.RHS, nil) != "recv.addr" {
+				continue
+			}
+			n++
+			tp, _ := g.Where(w.Stmt)
+			bad := ""
+			for _, w2 := range jp.FieldWrites("muc.Channel.addr") {
+				wp, _ := g.Where(w2.Stmt)
+				if g.Reachable(g.After(wp), tp, nil, nil) {
+					bad = "Channel.addr is rewritten at " + c.p.Pos(w2.Stmt.Pos()) + " before it is used as the presence's address: the room answers for an address Client.managed does not know"
+				}
+			}
+			c.r.Check("C18.7", jp, "join presence addressed to the registered occupant address", "K: p.To is the address the channel was registered under", w.Stmt.Pos(), bad == "", bad)
+		}
+		c.r.Floor("C18.7", "p.To = c.addr in JoinPresence", n, 1)
+	}
 }
